@@ -215,6 +215,7 @@ def judge(R, it, res, lean):
 
 
 def run_items(R, items):
+    items.sort(key=lambda it: (it["m"], len(it["P"])))      # same-shaped elections adjacent: persistent objects are refilled in place
     cases = [{"items": ch} for ch in chunks(items, 25)]
     results = pmap("c11", "impl_batch", cases, deadline=120.0)
     flat = []
